@@ -21,3 +21,7 @@ impl HandshakeDone {
 }
 
 simple_frame_codec!(HandshakeDone {}, handshake_done_tag!());
+
+#[cfg(all(aws_s2n_quic_verif, test))]
+#[path = "/verif/harness/core/frame_handshake_done.rs"]
+mod verif;
